@@ -75,7 +75,7 @@ theorem depositFold_game (own : Own) (t : Tx) (bm : BlockMeta) (os : List Out) :
       have := ih (j + 1) (depositB own t bm B j o') m o w ch hm ho hd
       rw [show j + (m + 1) = j + 1 + m by omega]; exact this
 
-theorem createFold_mem (p : Params) (own : Own) (t : Tx) (bm : BlockMeta) (os : List Out) :
+theorem createFold_origin (p : Params) (own : Own) (t : Tx) (bm : BlockMeta) (os : List Out) :
     ∀ (j : Nat) (B : Book) (u : UCoin), u ∈ (foldIdx (createB p own t bm) os j B).L →
       u ∈ B.L ∨ ∃ m o, os[m]? = some o ∧ ownerOf own o = some (u.wallet, u.change) ∧
         u.tx = t.id ∧ u.idx = j + m ∧ u.out = o ∧ u.blk = bm := by
@@ -89,7 +89,7 @@ theorem createFold_mem (p : Params) (own : Own) (t : Tx) (bm : BlockMeta) (os : 
       | none => rw [createB_none ho'] at h1; left; exact h1
       | some wc =>
         obtain ⟨w, ch⟩ := wc
-        rw [(createB_L (p := p) (t := t) (bm := bm) (B := B) (j := j) ho').1] at h1
+        rw [(createB_owned (p := p) (t := t) (bm := bm) (B := B) (j := j) ho').1] at h1
         rcases List.mem_append.1 h1 with h1 | h1
         · left; exact h1
         · simp only [List.mem_singleton] at h1
@@ -158,7 +158,7 @@ theorem locG_after_outputs {p : Params} {own : Own} {t : Tx} {bm : BlockMeta} {B
   intro u hu hd
   rw [(depositFold_L own t bm t.outs 0 _).1] at hu
   by_cases hne : u.tx = t.id
-  · rcases createFold_mem p own t bm t.outs 0 B u hu with h | ⟨m, o, hm, ho, h2, h3, h4, h5⟩
+  · rcases createFold_origin p own t bm t.outs 0 B u hu with h | ⟨m, o, hm, ho, h2, h3, h4, h5⟩
     · exact absurd ⟨hne, rfl⟩ (lookupU_none (hfresh u.idx) u h)
     · have := depositFold_game own t bm t.outs 0 (foldIdx (createB p own t bm) t.outs 0 B) m o u.wallet u.change hm ho
         (by rw [← h4]; exact hd)
@@ -178,7 +178,7 @@ theorem locG_after_outputs {p : Params} {own : Own} {t : Tx} {bm : BlockMeta} {B
         | none => rfl
         | some wc => rfl
     rw [hgame]
-    rcases createFold_mem p own t bm t.outs 0 B u hu with h | ⟨m, o, hm, ho, h2, _⟩
+    rcases createFold_origin p own t bm t.outs 0 B u hu with h | ⟨m, o, hm, ho, h2, _⟩
     · exact hG u h hne hd
     · exact absurd h2 hne
 
